@@ -313,3 +313,27 @@ for _pv in (2, 4, 5):
     _C03._mk_query_like('QUERY', _pv, prop='C46', opt_fn=_C03.statement_option_fields, label='encoded-')
     _C03._mk_query_like('EXECUTE', _pv, prop='C46', opt_fn=_C03.statement_option_fields, label='encoded-')
     _C03._mk_batch(_pv, prop='C46', label='encoded-', entries=(1,))
+
+
+@harness('C46', 'execution_profile_clone_update', functions=['cassandra.cluster.Session.execution_profile_clone_update'], native='contracts.native.c46:replay')
+def clone_update(vc):
+    """a profile derived for one request (session.execution_profile_clone_update(base, option=value, ...)): ensures the clone holds exactly the given values for the
+    options named - None included: that is how a derived profile switches a serial consistency or a timeout OFF - every other option as the base has it, and the base is untouched"""
+    from cassandra.cluster import Session, ExecutionProfile
+    base_vals = dict(load_balancing_policy=_Obj('lbp'), retry_policy=_Obj('retry'), consistency_level=6, serial_consistency_level=8, request_timeout=2.5,
+                     row_factory=_Obj('rowf'), speculative_execution_policy=_Obj('spec'), continuous_paging_options=None)
+    base = vc.obj(ExecutionProfile, **base_vals)
+    sess = vc.obj(Session)
+    vc.stub('cassandra.cluster.Session._maybe_get_execution_profile', lambda self_, ep: ep)
+    upd = {}
+    for name, values in (('serial_consistency_level', [None, 9]), ('request_timeout', [None, 0.0, 7.0]), ('consistency_level', [0, 4]), ('retry_policy', [_Obj('retry2')])):
+        pick = vc.choice(name, ['<left alone>'] + list(range(len(values))))
+        if pick != '<left alone>':
+            upd[name] = values[pick]
+    clone = vc.call('cassandra.cluster.Session.execution_profile_clone_update', sess, base, **upd)
+    ca = clone.attrs if hasattr(clone, 'attrs') else vars(clone)
+    same = lambda x, y: x is y or (not isinstance(x, _Obj) and not isinstance(y, _Obj) and x == y and type(x) is type(y))
+    vc.check('clone/is-a-new-profile', clone is not base)
+    vc.check('clone/named-options-take-the-given-values-None-included', all(same(ca.get(k), v) for k, v in upd.items()))
+    vc.check('clone/other-options-as-the-base', all(same(ca.get(k), v) for k, v in base_vals.items() if k not in upd))
+    vc.check('base/untouched', all(same(base.attrs.get(k), v) for k, v in base_vals.items()))
